@@ -17,14 +17,15 @@ def run(rep, tier, seed):
     quick = tier == "quick"
     jc.run_mc_jump(rep, tier, only=("sir_exact", "sir_tau", "mt_exact"))
     n = 64 if quick else 1200
-    jobs = [(seed % 100000 + 15, i, {"checkdraws": False, "plan_filter": grid_only, "extend": 0.3,
+    jobs = [(seed % 100000 + 15, i, {"checkdraws": False, "plan_filter": grid_only, "extend": 0.3, "grid_alone": True,
                                      "max_steps": 120 if quick else 250}) for i in range(n)]
     results = mc.pool_map(jc.model_worker, jobs)
     for r in results:      # python-level findings that concern the gridding itself
         r["findings"] = [f for f in r["findings"] if f.get("stage") == "gridding"]
     judge(rep, results, {"grid"}, "C15")
     up = sum(1 for r in results for rej in r["rejected"] if rej["label"] != "grid")
-    rep.cov["runs_not_judged_rejected_upstream"] = up
+    rep.cov["runs_rejected_upstream"] = up
+    rep.cov["of_those_table_judged_alone"] = sum(r.get("grid_alone", 0) for r in results)
     rep.assume("an event time equal to a grid time has probability 0; such runs are discarded")
     rep.cov["models_extended_after_simulation"] = sum(1 for r in results if r.get("extended"))   # same object: add_event / add_transition / add_birth_death, then simulated again
     rep.rule("%d random event models x 4 gridded runs (list / tuple / array grids, uniform and non-uniform, grids "
